@@ -164,6 +164,7 @@ class history {
     if (uni.keys.size() > 600) nops *= 3;
     scan_rate = a.dbl("scanrate", g_prop == "C02" ? 0.35 : 0.06);
     if (a.num("full256", 1) != 0 && r.chance(0.07)) make_full256();
+    a_prefix_bounds = a.num("prefixbounds", 1) != 0;
     tag = std::string(I::name) + "." + keyconv<K>::name;
     if constexpr (I::olc) with_companion = a.num("companion", 1) != 0 && r.chance(0.5);
   }
@@ -597,7 +598,21 @@ class history {
   }
 
   // ------------------------------------------------------------- C02 scans
+  // For byte-string keys a bound is any byte string: in particular a proper prefix of stored keys (the natural bound for
+  // compound keys: "everything whose first component is 5") or an extension of one. The model orders them byte-wise,
+  // a prefix before its extensions.
   bytes make_bound() {
+    bytes b = make_bound_same_shape();
+    if constexpr (std::is_same_v<K, unodb::key_view>) {
+      if (a_prefix_bounds && r.chance(0.25)) {
+        if (r.chance(0.6) && !b.empty()) { b.resize(r.below(b.size())); rep().count("prefix_bounds"); }
+        else { const auto n = 1 + r.below(3); for (u64 i = 0; i < n; ++i) b += static_cast<char>(r.chance(0.3) ? 0 : r.below(256)); rep().count("extension_bounds"); }
+      }
+    }
+    return b;
+  }
+
+  bytes make_bound_same_shape() {
     const auto m = r.below(100);
     if (model.empty() || m < 10) {
       bytes b = r.pick(uni.keys);
@@ -686,14 +701,13 @@ class history {
     }
     // byte-string scan_range: same bounds, buffers in the opposite address order
     if (ok && s.api == 2 && std::is_same_v<K, unodb::key_view>) {
-      std::vector<char> arena(s.a.size() + s.b.size() + 64);
+      const auto mlen = std::max(s.a.size(), s.b.size());  // the bounds may differ in length (prefix / extension bounds)
+      std::vector<char> arena(2 * mlen + 64);
       char* lo = arena.data();
-      char* hi = arena.data() + s.a.size() + 32;
+      char* hi = arena.data() + mlen + 32;
       for (const bool a_low : {true, false}) {
         char* pa = a_low ? lo : hi;
         char* pb = a_low ? hi : lo;
-        // pb region must hold b; regions are disjoint because each is at most max(len)+32 apart
-        if (!a_low && s.b.size() > s.a.size() + 32) continue;
         std::memcpy(pa, s.a.data(), s.a.size());
         std::memcpy(pb, s.b.data(), s.b.size());
         judge_scan_views(s, want, unodb::key_view{reinterpret_cast<const std::byte*>(pa), s.a.size()}, unodb::key_view{reinterpret_cast<const std::byte*>(pb), s.b.size()}, a_low);
@@ -836,6 +850,7 @@ class history {
   int scan_samples{0};
   std::size_t base_live{vm::alloc_tracker::get().bytes_live()};
   bool full256{false}, force_absent{false};
+  bool a_prefix_bounds{true};
   bool with_companion{false};
   bool deferred_possible{false};  // something may have been retired since the last drain
   companion* comp{nullptr};
